@@ -585,7 +585,10 @@ type mutation struct {
 	Pos    int64  `json:"pos"`
 	Len    int    `json:"len"`
 	Val    string `json:"val,omitempty"`
-	data   []byte
+	// AlsoTornIndex: the index file of the target's (closed) segment is cut to 3 bytes as well, so that it has to be
+	// rebuilt from the damaged segment
+	AlsoTornIndex string `json:"also_torn_index,omitempty"`
+	data          []byte
 }
 
 func runC10Damage(tier string, seed uint64, idx int) core.Result {
@@ -723,6 +726,27 @@ func runC10Damage(tier string, seed uint64, idx int) core.Result {
 		// whole-record zeroing (torn write of a full page)
 		muts = append(muts, mutation{Kind: "record-zero", Target: t, File: f, Pos: int64(rec.fileOff), Len: int(b.hdr) + pl, data: make([]byte, int(b.hdr)+pl)})
 	}
+	// a closed segment that lost its index file AND has a damaged record that is not its last one: the index has to
+	// be rebuilt by scanning the damaged segment
+	if !v1 {
+		for si, sb := range b.segBases[:len(b.segBases)-1] {
+			segEnd := b.segBases[si+1] - 1
+			if segEnd-sb < 2 {
+				continue
+			}
+			t := sb + rng.Int64N(segEnd-sb) // never the last record of the segment
+			rec := b.recs[t]
+			idxf := filepath.Join(b.walDir(), fmt.Sprintf("%d%s", sb, b.idxExt()))
+			if st, err := os.Stat(idxf); err != nil || st.Size() < 4 {
+				continue
+			}
+			pl := len(rec.payload)
+			ps := int64(rec.fileOff) + int64(b.hdr)
+			muts = append(muts,
+				mutation{Kind: "payload-bitflip+index-torn", Target: t, File: b.segFile(rec.segBase), Pos: ps + int64(rng.IntN(pl)), Len: 1, Val: fmt.Sprint(rng.IntN(8)), AlsoTornIndex: idxf},
+				mutation{Kind: "crc+index-torn", Target: t, File: b.segFile(rec.segBase), Pos: int64(rec.fileOff) + 8, Len: 4, Val: "rand", data: u32(rng.Uint32()), AlsoTornIndex: idxf})
+		}
+	}
 	// index files of closed segments
 	for _, sb := range b.segBases[:len(b.segBases)-1] {
 		f := filepath.Join(b.walDir(), fmt.Sprintf("%d%s", sb, b.idxExt()))
@@ -772,7 +796,7 @@ func runC10Damage(tier string, seed uint64, idx int) core.Result {
 		orig := append([]byte{}, data...)
 		if mu.Kind == "index-torn" {
 			data = data[:mu.Pos]
-		} else if mu.Kind == "payload-bitflip" {
+		} else if strings.HasPrefix(mu.Kind, "payload-bitflip") {
 			var bit int
 			fmt.Sscan(mu.Val, &bit)
 			data[mu.Pos] ^= 1 << uint(bit)
@@ -784,6 +808,13 @@ func runC10Damage(tier string, seed uint64, idx int) core.Result {
 		}
 		if err := os.WriteFile(tf, data, 0o644); err != nil {
 			continue
+		}
+		if mu.AlsoTornIndex != "" {
+			irel, _ := filepath.Rel(b.dir, mu.AlsoTornIndex)
+			if err := os.Truncate(filepath.Join(work, irel), 3); err != nil {
+				continue
+			}
+			r.Count("mutations_of_a_record_and_the_index_of_its_closed_segment", 1)
 		}
 		r.Count("mutations", 1)
 		fmt.Fprintf(os.Stderr, "mutation %s fmt=%s seg=%d commit=%d\n", core.JSON(mu), fmtName, segSize, commit)
@@ -887,6 +918,25 @@ func runC10Damage(tier string, seed uint64, idx int) core.Result {
 			if res.last < commit && !readFails {
 				r.Violate("C10/committed-damage-silent-truncation/"+ctx,
 					fmt.Sprintf("damage to committed entry %d (commit offset %d): reopen succeeded with last=%d and no error", mu.Target, commit, res.last), wit)
+			} else if mu.AlsoTornIndex != "" {
+				// the reopen succeeded: the rebuilt index must not have dropped the undamaged committed entries
+				// that follow the damaged one in its segment (a hole below the commit offset)
+				for off := int64(0); off <= commit && off <= head; off++ {
+					if off == mu.Target {
+						continue
+					}
+					if e, ok := res.entries[off]; ok && eqEntry(e, &entries[off]) {
+						continue
+					}
+					// reading it may fail because its segment is reported as corrupted; anything else (the entry
+					// is simply not there any more) is a silent loss
+					if msg := res.readErr[off]; !strings.Contains(msg, "data corrupted") {
+						r.Violate("C10/committed-entries-dropped-silently/"+ctx,
+							fmt.Sprintf("damage to committed entry %d of a closed segment whose index had to be rebuilt: reopen succeeded (first=%d last=%d), the undamaged committed entry %d is gone and no corruption is reported for it (%q)", mu.Target, res.first, res.last, off, msg), wit)
+						break
+					}
+					r.Count("undamaged_entries_reported_with_their_corrupted_segment", 1)
+				}
 			} else if !readFails && res.last >= mu.Target {
 				// entry still readable and bit-identical? then the damage must have been outside the live bytes — impossible here
 				if _, ok := res.entries[mu.Target]; !ok {
